@@ -303,9 +303,11 @@ macro_rules! c05_parse {
                         }
                     }
                 }
-                kani::cover!(r.is_ok());
-                kani::cover!(r == Err(ParseError::InvalidCharacter));
             }
+            let never_ok = !($len == $l || $len == $l - 2);
+            kani::cover!(r.is_ok() || never_ok);
+            kani::cover!(r == Err(ParseError::InvalidCharacter) || never_ok);
+            kani::cover!(r == Err(ParseError::InvalidStringLength));
         }
     };
 }
